@@ -3,9 +3,10 @@ import GoflowModel.Driver.CQL
 import GoflowModel.Driver.Engine
 import GoflowModel.Driver.Router
 import GoflowModel.Driver.Localize
+import GoflowModel.Driver.Inspect
 open GoflowModel
 
-def handlers : List (List String → Option String) := [Driver.C12.handle, Driver.CQL.handle, Driver.Engine.handle, Driver.Router.handle, Driver.Localize.handle]
+def handlers : List (List String → Option String) := [Driver.C12.handle, Driver.CQL.handle, Driver.Engine.handle, Driver.Router.handle, Driver.Localize.handle, Driver.Inspect.handle]
 
 def step (line : String) : String :=
   let toks := (line.trimAscii.toString.splitOn " ").filter (· ≠ "")
